@@ -7,6 +7,6 @@ CONSTANTS
   RSet <- MCRSet
   DSet <- MCDSet
   K = 4
-  MaxBodies = 4
+  MaxBodies = 3
 INVARIANTS TypeOK SummaryIsMomentary ReturnedLoopsWellFormed Declarative ReportedLaws NeverExceeded SerialIsOne OpenWhereUnstated Monotone
 CHECK_DEADLOCK FALSE
